@@ -115,7 +115,9 @@ SHA2_ROT = {
 def sha2_compress(w, h, block, trace=None):
     """FIPS 180-4 section 6.2.2 / 6.4.2.  h: 8 words; block: 64 (w=32) or 128
     (w=64) byte values.  Returns the 8 words of H(i).  `trace`, when a list,
-    receives (label, value) for the message schedule and every round."""
+    receives (label, value) for the message schedule and every round; labels
+    starting with "h:" mark values that carry the whole state from one round to
+    the next (C17 abstracts those to fresh variables, the others are merged)."""
     S0, S1, s0, s1 = SHA2_ROT[w]
     K = K256 if w == 32 else K512
     nr = len(K)
@@ -141,7 +143,7 @@ def sha2_compress(w, h, block, trace=None):
     for t in range(16, nr):
         W.append(ADD(SS(W[t - 2], s1), W[t - 7], SS(W[t - 15], s0), W[t - 16]))
         if trace is not None:
-            trace.append(("W%d" % t, W[t]))
+            trace.append(("h:W%d" % t, W[t]))
     a, b, c, d, e, f, g, hh = h
     for t in range(nr):
         s1e, che, s0a, mja = BS(e, S1), Ch(e, f, g), BS(a, S0), Maj(a, b, c)
@@ -152,8 +154,8 @@ def sha2_compress(w, h, block, trace=None):
                       ("r%d.T1" % t, T1), ("r%d.T2" % t, T2)]
         hh, g, f, e, d, c, b, a = g, f, e, ADD(d, T1), c, b, a, ADD(T1, T2)
         if trace is not None:
-            trace.append(("r%d.e" % t, e))
-            trace.append(("r%d.a" % t, a))
+            trace.append(("h:r%d.e" % t, e))
+            trace.append(("h:r%d.a" % t, a))
     return [ADD(x, y) for x, y in zip((a, b, c, d, e, f, g, hh), h)]
 
 
@@ -257,7 +259,7 @@ def keccak_round(A, ir, trace=None):
     def tr(lab, vals):
         if trace is not None:
             for i, v in enumerate(vals):
-                trace.append(("r%d.%s%d" % (ir, lab, i), v))
+                trace.append(("%sr%d.%s%d" % ("h:" if lab == "out" else "", ir, lab, i), v))
     # theta
     C = [X(X(X(X(A[x], A[x + 5]), A[x + 10]), A[x + 15]), A[x + 20]) for x in range(5)]
     tr("C", C)
@@ -369,7 +371,7 @@ def blake2s_F(h, block, t, last, trace=None):
     def G(a, b, c, d, x, y, tag):
         def tr(step, k):
             if trace is not None:
-                trace.append(("%s.s%d.v%d" % (tag, step, k), v[k]))
+                trace.append(("%s%s.s%d.v%d" % ("h:" if step >= 5 else "", tag, step, k), v[k]))
         v[a] = ADD(v[a], v[b], x)
         tr(1, a)
         v[d] = rotr(X(v[d], v[a]), 16, w)
